@@ -479,10 +479,85 @@ pub fn run_c12(tier: &str) -> i32 {
     rep.finish()
 }
 
+/// C14 "calls after errors": a first call that fails at some stage of identification (or later), then a healthy
+/// card and two more calls; the monitor judges the whole conversation.
+fn after_error_runs(tier: &str) -> (Vec<Violation>, u64) {
+    let kinds = [Kind::V1Sdsc, Kind::V2Sdsc, Kind::V2Sdhc];
+    let mut jobs: Vec<(Kind, bool, Fault)> = Vec::new();
+    for &k in &kinds {
+        for crc in [true, false] {
+            // length of a fault-free identification + one read, in bytes and transactions
+            let mut card = Card::new(k, default_csd(k));
+            card.fault = Fault::None;
+            let c = conv(card, crc);
+            exec(&c, SdOp::Read(1, 1), 0);
+            let (bytes, txns) = {
+                let cb = c.card.borrow();
+                (cb.exchanges, cb.txns)
+            };
+            jobs.push((k, crc, Fault::NeverReady));
+            let (bs, ts) = if tier == "quick" { (5, 3) } else { (1, 1) };
+            for at in (0..bytes).step_by(bs) {
+                jobs.push((k, crc, Fault::Silent { at }));
+            }
+            for txn in (0..txns).step_by(ts) {
+                jobs.push((k, crc, Fault::SpiError { txn }));
+            }
+        }
+    }
+    let res: Vec<Vec<Violation>> = par_map(jobs.len(), |i| {
+        let (kind, crc, fault) = &jobs[i];
+        let mut card = Card::new(*kind, default_csd(*kind));
+        card.fault = fault.clone();
+        card.monitor = Some(Box::new(Monitor::new()));
+        let c = conv(card, *crc);
+        let r1 = exec(&c, SdOp::Read(1, 1), 0);
+        {
+            let mut cb = c.card.borrow_mut();
+            cb.fault = Fault::None;
+            cb.horizon = cb.exchanges + 50_000_000;
+        }
+        let r2 = exec(&c, SdOp::Read(2, 1), 1);
+        let r3 = exec(&c, SdOp::Write(3, 1), 2);
+        let mut cb = c.card.borrow_mut();
+        let mon = cb.monitor.as_mut().unwrap();
+        mon.finish();
+        mon.violations
+            .iter()
+            .map(|(sig, detail)| {
+                v(
+                    "C14",
+                    format!("after-error/{}", sig),
+                    format!("{:?} card, CRC {}, first call under fault {:?} -> {}, then healthy card: read -> {}, write -> {}: {}", kind, if *crc { "on" } else { "off" }, fault, r1.class(), r2.class(), r3.class(), detail),
+                    {
+                        let mut j = fault_json(*kind, *crc, fault);
+                        j["prop"] = json!("C14");
+                        j["after_error"] = json!(true);
+                        j
+                    },
+                )
+            })
+            .collect()
+    });
+    let n = jobs.len() as u64;
+    let mut out: Vec<Violation> = Vec::new();
+    for vv in res {
+        for x in vv {
+            if !out.iter().any(|y| y.sig == x.sig) {
+                out.push(x);
+            }
+        }
+    }
+    (out, n)
+}
+
 pub fn run_c14(tier: &str) -> i32 {
     let mut rep = Report::new("C14", tier, "model_checking");
     let agg = explore_sd("C14", tier, true);
     rep.add_violations(agg.viols);
+    let (av, an) = after_error_runs(tier);
+    rep.add_violations(av);
+    rep.cov("conversations_continued_after_a_failed_call", json!(an));
     rep.cov("states", json!(agg.conversations));
     rep.cov("transitions", json!(agg.runs));
     rep.cov("traces_validated_against_impl", json!(agg.runs));
@@ -876,6 +951,26 @@ pub fn replay_input(inp: &Value) -> i32 {
         }
         let (_, out) = run_conversation(kind, true, c, &[SdOp::NumBlocks, SdOp::NumBytes], Chooser::default());
         found.extend(out.c12);
+    } else if inp["after_error"].as_bool() == Some(true) {
+        let fault = fault_from(&inp["fault"]);
+        let mut card = Card::new(kind, default_csd(kind));
+        card.fault = fault;
+        card.monitor = Some(Box::new(Monitor::new()));
+        let c = conv(card, crc);
+        println!("  first call: {}", exec(&c, SdOp::Read(1, 1), 0).class());
+        {
+            let mut cb = c.card.borrow_mut();
+            cb.fault = Fault::None;
+            cb.horizon = cb.exchanges + 50_000_000;
+        }
+        println!("  healthy card: read -> {}", exec(&c, SdOp::Read(2, 1), 1).class());
+        println!("  healthy card: write -> {}", exec(&c, SdOp::Write(3, 1), 2).class());
+        let mut cb = c.card.borrow_mut();
+        let mon = cb.monitor.as_mut().unwrap();
+        mon.finish();
+        for (s, d) in &mon.violations {
+            found.push((format!("after-error/{}", s), d.clone()));
+        }
     } else if prop == "C13" {
         let f = fault_from(&inp["fault"]);
         let (vv, _) = run_faulty(kind, crc, f, inp);
